@@ -28,7 +28,7 @@ type c11Case struct {
 	Subset []string `json:"subset,omitempty"`
 	N      int      `json:"n,omitempty"`
 	Text   string   `json:"text,omitempty"`
-	Patch  *patchM  `json:"patch,omitempty"`
+	Patch  *dyn.PatchM  `json:"patch,omitempty"`
 	Excl   []string `json:"excluded,omitempty"`
 }
 
@@ -332,308 +332,26 @@ func TestC11FixedAndEnums(t *testing.T) {
 // ---------------------------------------------------------------------------------------------
 // partial updates
 
-// patchM is the abstract model of a partial update of one record.
-type patchM struct {
-	Deletes []string           `json:"deletes,omitempty"`
-	Sets    map[string]*aval.V `json:"sets,omitempty"`
-	Nested  map[string]*patchM `json:"nested,omitempty"`
-}
-
-func (p *patchM) empty() bool { return len(p.Deletes) == 0 && len(p.Sets) == 0 && len(p.Nested) == 0 }
-
-// legal: no field is touched by more than one of delete / set / nested patch (recursively).
-func (p *patchM) legal() bool {
-	seen := map[string]int{}
-	for _, d := range p.Deletes {
-		seen[d]++
-	}
-	for k := range p.Sets {
-		seen[k]++
-	}
-	for k, n := range p.Nested {
-		seen[k]++
-		if !n.legal() {
-			return false
-		}
-	}
-	for _, c := range seen {
-		if c > 1 {
-			return false
-		}
-	}
-	return true
-}
-
-func (p *patchM) touches(spec [][]string, prefix []string) bool {
-	hit := func(name string) bool {
-		path := append(append([]string(nil), prefix...), name)
-		for _, q := range spec {
-			if len(q) == len(path) {
-				ok := true
-				for i := range q {
-					if q[i] != path[i] {
-						ok = false
-					}
-				}
-				if ok {
-					return true
-				}
-			}
-		}
-		return false
-	}
-	for _, d := range p.Deletes {
-		if hit(d) {
-			return true
-		}
-	}
-	for k := range p.Sets {
-		if hit(k) {
-			return true
-		}
-	}
-	for k, n := range p.Nested {
-		if hit(k) || n.touches(spec, append(append([]string(nil), prefix...), k)) {
-			return true
-		}
-	}
-	return false
-}
-
-// owner returns the record (n itself or a transitively included one) that declares field name, and the chain of
-// included record names leading to it.
-func owner(n *schema.Named, name string) (*schema.Named, []string) {
-	for _, f := range n.Fields {
-		if f.Name == name {
-			return n, nil
-		}
-	}
-	for _, inc := range n.Includes {
-		in := S.Lookup(inc)
-		if o, chain := owner(in, name); o != nil {
-			return o, append([]string{in.Name}, chain...)
-		}
-	}
-	return nil, nil
-}
-
-func fieldByName(n *schema.Named, name string) schema.Field {
-	for _, f := range S.AllFields(n) {
-		if f.Name == name {
-			return f
-		}
-	}
-	panic("no field " + name + " in " + n.Full())
-}
-
-// patchStruct navigates to the <Owner>_PartialUpdate struct that holds the slots of field name.
-func patchStruct(pv reflect.Value, n *schema.Named, name string) reflect.Value {
-	_, chain := owner(n, name)
-	cur := pv
-	for _, inc := range chain {
-		cur = cur.FieldByName(inc + "_PartialUpdate")
-		if !cur.IsValid() {
-			panic("dyn: no embedded partial update struct for included record " + inc)
-		}
-	}
-	return cur
-}
-
-func buildPatch(n *schema.Named, p *patchM) reflect.Value {
-	pv := reflect.New(dyn.PatchTypeOf(n.Full())).Elem()
-	fillPatch(pv, n, p)
-	return pv
-}
-
-func fillPatch(pv reflect.Value, n *schema.Named, p *patchM) {
-	for _, d := range p.Deletes {
-		ps := patchStruct(pv, n, d)
-		fv := ps.FieldByName("Delete_Fields").FieldByName(schema.Exported(d))
-		if !fv.IsValid() {
-			panic("field " + d + " of " + n.Full() + " has no delete slot")
-		}
-		fv.SetBool(true)
-	}
-	for name, v := range p.Sets {
-		f := fieldByName(n, name)
-		ps := patchStruct(pv, n, name)
-		fv := ps.FieldByName("Set_Fields").FieldByName(schema.Exported(name))
-		built := dyn.Build(S, f.Type, v, dyn.BuildOpts{})
-		ptr := reflect.New(fv.Type().Elem())
-		ptr.Elem().Set(built)
-		fv.Set(ptr)
-	}
-	for name, np := range p.Nested {
-		f := fieldByName(n, name)
-		ps := patchStruct(pv, n, name)
-		fv := ps.FieldByName(schema.Exported(name))
-		ptr := reflect.New(fv.Type().Elem())
-		fillPatch(ptr.Elem(), S.Lookup(*f.Type.Ref), np)
-		fv.Set(ptr)
-	}
-}
-
-func extractPatch(pv reflect.Value, n *schema.Named) *patchM {
-	p := &patchM{Sets: map[string]*aval.V{}, Nested: map[string]*patchM{}}
-	for _, f := range S.AllFields(n) {
-		ps := patchStruct(pv, n, f.Name)
-		if dv := ps.FieldByName("Delete_Fields").FieldByName(schema.Exported(f.Name)); dv.IsValid() && dv.Bool() {
-			p.Deletes = append(p.Deletes, f.Name)
-		}
-		if sv := ps.FieldByName("Set_Fields").FieldByName(schema.Exported(f.Name)); sv.IsValid() && !sv.IsNil() {
-			p.Sets[f.Name] = dyn.Extract(S, f.Type, sv.Elem())
-		}
-		if f.Type.Ref != nil && S.Lookup(*f.Type.Ref).Kind == "record" {
-			if nv := ps.FieldByName(schema.Exported(f.Name)); nv.IsValid() && nv.Kind() == reflect.Ptr && !nv.IsNil() {
-				p.Nested[f.Name] = extractPatch(nv.Elem(), S.Lookup(*f.Type.Ref))
-			}
-		}
-	}
-	sort.Strings(p.Deletes)
-	return p
-}
-
-// withDefaults: decoding fills schema defaults into the values being set.
-func (p *patchM) withDefaults(n *schema.Named) *patchM {
-	out := &patchM{Deletes: p.Deletes, Sets: map[string]*aval.V{}, Nested: map[string]*patchM{}}
-	for k, v := range p.Sets {
-		out.Sets[k] = fillDefaults(fieldByName(n, k).Type, v)
-	}
-	for k, np := range p.Nested {
-		out.Nested[k] = np.withDefaults(S.Lookup(*fieldByName(n, k).Type.Ref))
-	}
-	return out
-}
-
-func (p *patchM) canon() string {
-	var b strings.Builder
-	d := append([]string(nil), p.Deletes...)
-	sort.Strings(d)
-	fmt.Fprintf(&b, "del%v set{", d)
-	var ks []string
-	for k := range p.Sets {
-		ks = append(ks, k)
-	}
-	sort.Strings(ks)
-	for _, k := range ks {
-		fmt.Fprintf(&b, "%s=%s;", k, p.Sets[k].Canon())
-	}
-	b.WriteString("} nested{")
-	ks = ks[:0]
-	for k := range p.Nested {
-		ks = append(ks, k)
-	}
-	sort.Strings(ks)
-	for _, k := range ks {
-		fmt.Fprintf(&b, "%s=%s;", k, p.Nested[k].canon())
-	}
-	b.WriteString("}")
-	return b.String()
-}
-
-// patchTree is the protocol's wire shape of a patch body: {$delete:[...], $set:{...}, field:{nested}}.
-func patchTree(n *schema.Named, p *patchM) *refcodec.Tree {
-	t := refcodec.Obj()
-	if len(p.Deletes) > 0 {
-		a := refcodec.Arr()
-		d := append([]string(nil), p.Deletes...)
-		sort.Strings(d)
-		for _, x := range d {
-			a.Arr = append(a.Arr, refcodec.Str(x))
-		}
-		t.Obj = append(t.Obj, refcodec.KV{K: "$delete", V: a})
-	}
-	if len(p.Sets) > 0 {
-		s := refcodec.Obj()
-		var ks []string
-		for k := range p.Sets {
-			ks = append(ks, k)
-		}
-		sort.Strings(ks)
-		for _, k := range ks {
-			s.Obj = append(s.Obj, refcodec.KV{K: k, V: refcodec.TreeOf(S, fieldByName(n, k).Type, p.Sets[k], refcodec.Opts{Bytes: refcodec.RawUTF8})})
-		}
-		t.Obj = append(t.Obj, refcodec.KV{K: "$set", V: s})
-	}
-	var ks []string
-	for k := range p.Nested {
-		ks = append(ks, k)
-	}
-	sort.Strings(ks)
-	for _, k := range ks {
-		t.Obj = append(t.Obj, refcodec.KV{K: k, V: patchTree(S.Lookup(*fieldByName(n, k).Type.Ref), p.Nested[k])})
-	}
-	return t
-}
-
-// sameTree compares wire trees ignoring key order and the order of $delete lists, numbers by value.
-func sameTree(a, b *refcodec.Tree, underDelete bool) bool {
-	if a.Kind != b.Kind {
-		return false
-	}
-	switch a.Kind {
-	case "obj":
-		if len(a.Obj) != len(b.Obj) {
-			return false
-		}
-		for _, kv := range a.Obj {
-			o := b.Get(kv.K)
-			if o == nil || !sameTree(kv.V, o, kv.K == "$delete") {
-				return false
-			}
-		}
-		return true
-	case "arr":
-		if len(a.Arr) != len(b.Arr) {
-			return false
-		}
-		if underDelete {
-			as, bs := []string{}, []string{}
-			for i := range a.Arr {
-				as = append(as, a.Arr[i].Str)
-				bs = append(bs, b.Arr[i].Str)
-			}
-			sort.Strings(as)
-			sort.Strings(bs)
-			return reflect.DeepEqual(as, bs)
-		}
-		for i := range a.Arr {
-			if !sameTree(a.Arr[i], b.Arr[i], false) {
-				return false
-			}
-		}
-		return true
-	case "num":
-		var x, y float64
-		fmt.Sscan(a.Str, &x)
-		fmt.Sscan(b.Str, &y)
-		return x == y
-	case "bool":
-		return a.Bool == b.Bool
-	}
-	return a.Str == b.Str
-}
-
 // enumeratePatches lists every assignment of a subset of {delete, set, nested patch} to each field of n (nested
 // patches one level deep use the nested record's own single-slot assignments).
-func enumeratePatches(n *schema.Named, depth int) []*patchM {
+func enumeratePatches(n *schema.Named, depth int) []*dyn.PatchM {
 	fields := S.AllFields(n)
 	if len(fields) > 5 {
 		fields = fields[:5]
 	}
-	out := []*patchM{{Sets: map[string]*aval.V{}, Nested: map[string]*patchM{}}}
+	out := []*dyn.PatchM{{Sets: map[string]*aval.V{}, Nested: map[string]*dyn.PatchM{}}}
 	for _, f := range fields {
 		var opts [][3]any // delete?, set value, nested patch
 		canDelete := !f.Required()
-		var nestedOpts []*patchM
+		var nestedOpts []*dyn.PatchM
 		if f.Type.Ref != nil && S.Lookup(*f.Type.Ref).Kind == "record" && depth == 0 {
 			sub := S.Lookup(*f.Type.Ref)
 			for _, sf := range S.AllFields(sub) {
-				nestedOpts = append(nestedOpts, &patchM{Sets: map[string]*aval.V{sf.Name: sampleValue(sf.Type, true)}, Nested: map[string]*patchM{}})
+				nestedOpts = append(nestedOpts, &dyn.PatchM{Sets: map[string]*aval.V{sf.Name: sampleValue(sf.Type, true)}, Nested: map[string]*dyn.PatchM{}})
 				if !sf.Required() {
-					nestedOpts = append(nestedOpts, &patchM{Deletes: []string{sf.Name}, Sets: map[string]*aval.V{}, Nested: map[string]*patchM{}})
+					nestedOpts = append(nestedOpts, &dyn.PatchM{Deletes: []string{sf.Name}, Sets: map[string]*aval.V{}, Nested: map[string]*dyn.PatchM{}})
 					// an illegal nested patch: set and delete of the same nested field
-					nestedOpts = append(nestedOpts, &patchM{Deletes: []string{sf.Name}, Sets: map[string]*aval.V{sf.Name: sampleValue(sf.Type, false)}, Nested: map[string]*patchM{}})
+					nestedOpts = append(nestedOpts, &dyn.PatchM{Deletes: []string{sf.Name}, Sets: map[string]*aval.V{sf.Name: sampleValue(sf.Type, false)}, Nested: map[string]*dyn.PatchM{}})
 				}
 				if len(nestedOpts) >= 4 {
 					break
@@ -645,7 +363,7 @@ func enumeratePatches(n *schema.Named, depth int) []*patchM {
 				continue
 			}
 			for _, set := range []bool{false, true} {
-				nests := append([]*patchM{nil}, nestedOpts...)
+				nests := append([]*dyn.PatchM{nil}, nestedOpts...)
 				for _, np := range nests {
 					var sv any
 					if set {
@@ -655,10 +373,10 @@ func enumeratePatches(n *schema.Named, depth int) []*patchM {
 				}
 			}
 		}
-		var next []*patchM
+		var next []*dyn.PatchM
 		for _, base := range out {
 			for _, o := range opts {
-				p := &patchM{Deletes: append([]string(nil), base.Deletes...), Sets: map[string]*aval.V{}, Nested: map[string]*patchM{}}
+				p := &dyn.PatchM{Deletes: append([]string(nil), base.Deletes...), Sets: map[string]*aval.V{}, Nested: map[string]*dyn.PatchM{}}
 				for k, v := range base.Sets {
 					p.Sets[k] = v
 				}
@@ -671,8 +389,8 @@ func enumeratePatches(n *schema.Named, depth int) []*patchM {
 				if o[1] != nil {
 					p.Sets[f.Name] = o[1].(*aval.V)
 				}
-				if o[2].(*patchM) != nil {
-					p.Nested[f.Name] = o[2].(*patchM)
+				if o[2].(*dyn.PatchM) != nil {
+					p.Nested[f.Name] = o[2].(*dyn.PatchM)
 				}
 				next = append(next, p)
 			}
@@ -719,12 +437,12 @@ func TestC11PartialUpdates(t *testing.T) {
 				}
 				evaluated++
 				c := c11Case{Kind: "patch", Type: full, Patch: p, Excl: spec}
-				legal := p.legal()
+				legal := p.Legal()
 				var parsed [][]string
 				for _, d := range spec {
 					parsed = append(parsed, strings.Split(d, "/"))
 				}
-				touches := p.touches(parsed, nil)
+				touches := p.Touches(parsed, nil)
 				// a nested-path spec combined with a wholesale set of the parent is left unasserted (see DESIGN)
 				unspecified := false
 				for _, q := range parsed {
@@ -744,8 +462,8 @@ func TestC11PartialUpdates(t *testing.T) {
 					labels = append(labels, "nested_patch")
 				}
 				rec.Case(labels...)
-				rec.NonTrivial("patch", full+"|"+p.canon()+"|"+strings.Join(spec, ","), func() any { return c })
-				pv := buildPatch(n, p)
+				rec.NonTrivial("patch", full+"|"+p.Canon()+"|"+strings.Join(spec, ","), func() any { return c })
+				pv := dyn.BuildPatch(S, n, p)
 				var doc string
 				var err error
 				if pn, pvv, st := hx.Try(func() {
@@ -762,15 +480,15 @@ func TestC11PartialUpdates(t *testing.T) {
 				shouldFail := !legal || touches
 				switch {
 				case shouldFail && err == nil:
-					tl.fail("patch-encode", c, "an illegal partial update of %s was emitted (legal=%v touchesExcluded=%v spec=%q): %s -> %s", full, legal, touches, spec, p.canon(), hx.Q(doc))
+					tl.fail("patch-encode", c, "an illegal partial update of %s was emitted (legal=%v touchesExcluded=%v spec=%q): %s -> %s", full, legal, touches, spec, p.Canon(), hx.Q(doc))
 				case !shouldFail && err != nil:
-					tl.fail("patch-encode", c, "a legal partial update of %s was rejected (spec=%q): %s: %v", full, spec, p.canon(), err)
+					tl.fail("patch-encode", c, "a legal partial update of %s was rejected (spec=%q): %s: %v", full, spec, p.Canon(), err)
 				case !shouldFail:
 					got, perr := refcodec.ParseJSON([]byte(doc))
-					want := refcodec.Obj(refcodec.KV{K: "patch", V: patchTree(n, p)})
+					want := refcodec.Obj(refcodec.KV{K: "patch", V: dyn.PatchTree(S, n, p)})
 					if perr != nil {
 						tl.fail("patch-shape", c, "emitted patch is not well-formed JSON: %v: %s", perr, hx.Q(doc))
-					} else if !sameTree(want, got, false) {
+					} else if !dyn.SameTree(want, got, false) {
 						tl.fail("patch-shape", c, "emitted patch does not have the protocol's patch/$set/$delete shape:\n got =%s\n want=%s", doc, want.String())
 					}
 				}
@@ -778,7 +496,7 @@ func TestC11PartialUpdates(t *testing.T) {
 					continue
 				}
 				// decode the reference rendering of the same patch (no exclusions)
-				want := refcodec.Obj(refcodec.KV{K: "patch", V: patchTree(n, p)})
+				want := refcodec.Obj(refcodec.KV{K: "patch", V: dyn.PatchTree(S, n, p)})
 				ref := refcodec.RenderJSON(want, refcodec.JSONOpts{})
 				dvp := reflect.New(dyn.PatchTypeOf(full))
 				var derr error
@@ -799,8 +517,8 @@ func TestC11PartialUpdates(t *testing.T) {
 				case legal && derr != nil:
 					tl.fail("patch-decode", c, "a legal partial update document of %s was rejected: %s: %v", full, ref, derr)
 				case legal:
-					if got := extractPatch(dvp.Elem(), n); got.canon() != p.withDefaults(n).canon() {
-						tl.fail("patch-decode", c, "partial update did not round trip:\n got =%s\n want=%s\n doc=%s", got.canon(), p.canon(), ref)
+					if got := dyn.ExtractPatch(S, dvp.Elem(), n); got.Canon() != p.WithDefaults(S, n).Canon() {
+						tl.fail("patch-decode", c, "partial update did not round trip:\n got =%s\n want=%s\n doc=%s", got.Canon(), p.Canon(), ref)
 					}
 				}
 			}
